@@ -10,6 +10,7 @@ Theorems for EVERY byte string, every start position, every fault environment.  
 -/
 import MutagenModel.Proofs.Container.Mp4LoadCap
 import MutagenModel.Proofs.Container.Mp4Link
+import MutagenModel.Proofs.Container.Mp4Chapters
 set_option linter.unusedVariables false
 namespace Mutagen.C06
 open Mutagen Mutagen.Mp4C
@@ -135,5 +136,32 @@ example :
       some [([0xa9, 0x6e, 0x61, 0x6d], [0x61, 0x62, 0x63])] ∧
     (loadM { failAt := fun j => if j = 14 then some .io else none } { data := mp4LoadEx }).2.data = mp4LoadEx := by
   decide +kernel
+
+/-! ### the complete load: with `MP4Chapters` (`loadFullM` = `loadM`, then the two `atom.read`s of the chapters) -/
+
+/-- refinement: without injected faults (any capacity) the complete `MP4(fileobj)` — atoms, stream info, tags, chapters —
+returns what the pure load returns on the bytes, and the file is unchanged -/
+theorem mp4_load_full_refines {e : Env} (hq : Quiet e) (s : FS) :
+    ∃ s', loadFullM e s = (loadFullPure s.data, s') ∧ s'.data = s.data :=
+  loadFullM_q hq s
+
+/-- under ANY fault environment: `error`, the fuel marker, or a non-IOError the file object itself raised — an IOError in
+one of the chapter reads is an `Exception` and leaves as `MP4MetadataError` -/
+theorem mp4_load_full_raises : Raises LP' loadFullM := raises_loadFullM
+
+/-- … and the bytes of the file are as before, whatever happens -/
+theorem mp4_load_full_never_writes : NoWrite loadFullM := noWrite_loadFullM
+
+/-- `a = MP4(f); a.save(f)` on ONE file object, nothing summarised (the complete load with its reads, then `MP4Tags.save`
+with its own `Atoms(fileobj)`), no injected faults, every capacity: the load's exception with the file untouched; else
+ENOSPC with the file byte-identical, or the outcome and the bytes of the pure `saveTags` -/
+theorem mp4_load_then_save {e : Env} (hq : Quiet e) (B : Nat) (hB : 0 < B) (ilstData : Bytes) (pad : PadChoice) (s : FS) :
+    match loadFullPure s.data with
+    | .error x => ∃ s', loadSaveM B ilstData pad e s = (.error x, s') ∧ s'.data = s.data
+    | .ok _ =>
+      (∃ s', loadSaveM B ilstData pad e s = (.error .enospc, s') ∧ s'.data = s.data) ∨
+      (∃ s', loadSaveM B ilstData pad e s = (toExcept (saveTags true s.data ilstData pad).1, s') ∧
+        s'.data = (saveTags true s.data ilstData pad).2) :=
+  loadSaveM_q hq B hB ilstData pad s
 
 end Mutagen.C06
